@@ -16,6 +16,7 @@
 -/
 import Wbxml.Lemmas.ParseSerHeader
 import Wbxml.Lemmas.ParseSerElem
+import Wbxml.Lemmas.ParseSerTyped
 import Wbxml.Gen.Tables
 set_option maxRecDepth 100000
 namespace Wbxml.Props.C04
@@ -282,6 +283,34 @@ theorem opaque_typed_rule (c : Ctx) (ver) (hc : c.ok = true) (own : Option TagRo
   rw [serItems_cons, serItem_opaque, serItems_nil, List.append_nil, evItems_cons, evItem_opaque, evItems_nil] at this
   simpa [opaqueText, hb, slotEnd, slotAfter] using this
 
+
+/-- The typed rules in terms of the standards. DRMREL `ds:KeyValue` (page 0, 0x0C), SyncML
+    `NextNonce` (MetInf page 1, 0x10) and every OTA opaque attribute value: RFC 4648 base64 of the
+    octets. Wireless Village integer elements: the decimal numeral of the big-endian value of the
+    octets (defined when it fits 32 bits). -/
+theorem typed_rules_by_standard (d : Bytes) (row : TagRow) :
+    (d ≠ [] → row.page = 0 → row.token = 0x0C →
+      decodeOpaqueContent 1801 (some row) d = .ok (Rfc4648.encode d)) ∧
+    (d ≠ [] → row.page = 1 → row.token = 0x10 → ∀ l, isSyncml l = true →
+      decodeOpaqueContent l (some row) d = .ok (Rfc4648.encode d)) ∧
+    (d ≠ [] → decodeOpaqueAttrValue 1901 d = .ok (Rfc4648.encode d)) ∧
+    (wvDataType row.page row.token = .integer → Lemmas.Typed.beNat d < 4294967296 → ∀ l, isWv l = true →
+      decodeOpaqueContent l (some row) d = .ok (natDigits (Lemmas.Typed.beNat d))) := by
+  refine ⟨?_, ?_, ?_, ?_⟩
+  · intro hd hp ht
+    simp [decodeOpaqueContent, isWv, hp, ht, decodeBase64Value_spec d hd]
+  · intro hd hp ht l hl
+    have hnw : isWv l = false := by
+      simp only [isSyncml, Bool.or_eq_true, beq_iff_eq] at hl
+      rcases hl with (rfl | rfl) | rfl <;> rfl
+    have hn : (l == 1801) = false := by
+      simp only [isSyncml, Bool.or_eq_true, beq_iff_eq] at hl
+      rcases hl with (rfl | rfl) | rfl <;> rfl
+    simp [decodeOpaqueContent, hnw, hn, hl, hp, ht, decodeBase64Value_spec d hd]
+  · intro hd
+    simp [decodeOpaqueAttrValue, decodeBase64Value_spec d hd]
+  · intro hk hv l hl
+    simp [decodeOpaqueContent, hl, hk, decodeWvInteger_spec, hv]
 
 /-! ## Non-vacuity: concrete documents over the regenerated tables -/
 
